@@ -179,7 +179,9 @@ def snap(np, kind, sk, universe):
         return {"tab": tab, "n_added": int(sk.n_added()), "n_records": int(sk.n_records()),
                 "q": [(k, int(sk.query(k))) for k in universe]}
     if kind == "hh":
-        return {"n_added": int(sk.n_added()), "n_records": int(sk.n_records()),
+        import hh_common
+        return {"tabcode": hh_common.tab_code(sk, int(sk.depth), int(sk.width), int(sk.max_key_len)),
+                "n_added": int(sk.n_added()), "n_records": int(sk.n_records()),
                 "get": [(k, int(sk[k])) for k in universe],
                 "query": [(bytes(k), int(n)) for k, n in sk.query(len(universe) + 8, 1)]}
     return {"regs": [int(x) for x in np.array(sk.registers, copy=True)]}
@@ -202,6 +204,24 @@ def sequential(env, kind, cfg, items, universe):
 def probe_buckets(env, cfg, universe):
     import cms_common
     return cms_common.probe_buckets(lambda: env.mk["cms"](**cfg["cms"]), universe, cfg["cms"]["depth"])
+
+
+def probe_buckets_hh(env, cfg, universe):
+    """column owned by a key in each row of the heavy-hitter table, observed on an empty probe"""
+    d, w = cfg["hh"]["depth"], cfg["hh"]["width"]
+    bm = {}
+    for k in universe:
+        p = env.mk["hh"](**cfg["hh"])
+        p.add(k)
+        cols = []
+        for r in range(d):
+            nz = [c for c in range(w) if int(p.lhh_count[r, c]) != 0]
+            if len(nz) != 1:
+                raise RuntimeError(f"hh probe: key {k!r} moved {len(nz)} cells in row {r}")
+            cols.append(nz[0])
+        bm[k] = cols
+        del p
+    return bm
 
 
 # ----------------------------------------------------------------------------- the property predicate
@@ -458,6 +478,27 @@ def coq_cms_case(cfg, bm, items, sched, workers, final):
             f"{ews}, {coq_expect_cms(final)})")
 
 
+def coq_hobs(s):
+    kz = lambda l: "[" + "; ".join(f"({zk(k)}, {v})" for k, v in l) + "]"
+    return f"({s['tabcode']}, {s['n_added']}, {s['n_records']}, {kz(s['get'])}, {kz(s['query'])})"
+
+
+def coq_hh_head(cfg, bmh, items, sched):
+    import cms_common
+    c = cfg["hh"]
+    return (f"{c['width']}%nat, {c['depth']}%nat, {c['max_key_len']}%nat, {cms_common.coq_bmap(bmh)}, "
+            f"{coq_outs(items, 'hh')}, {coq_sched(sched)}")
+
+
+def coq_hh_case(cfg, bmh, items, sched, workers, final):
+    ews = "[" + "; ".join(f"({s['tabcode']}, {s['n_added']}, {s['n_records']})" for s in workers) + "]"
+    return f"(({coq_hh_head(cfg, bmh, items, sched)}, {ews}, {coq_hobs(final)}) : hh_pa_case)"
+
+
+def coq_real_hh_case(cfg, bmh, items, sched, final):
+    return f"(({coq_hh_head(cfg, bmh, items, sched)}, {coq_hobs(final)}) : real_hh_case)"
+
+
 def coq_hll_case(cfg, items, sched, final):
     p, seed = cfg["hll"]["p"], cfg["hll"]["seed"]
     regs = final["regs"]
@@ -477,6 +518,7 @@ def coq_mon_case(n, kinds, polls, raised, closed, nmerge):
 
 
 IMPORTS = "Machine Harness Hll CmsLinear CmsLinearHarness Merging"
+IMPORTS_HH = "Machine Harness CmsLinearHarness Merging HH MergingHH"
 
 
 # ----------------------------------------------------------------------------- the suite shared by C08 and C19
@@ -488,8 +530,9 @@ class Suite:
     def __init__(self, ctx, env, cfg, universe, bm):
         self.ctx, self.env, self.cfg, self.universe, self.bm = ctx, env, cfg, universe, bm
         self.nviol = 0
-        self.cms_cases, self.hll_cases, self.shape_cases, self.mon_cases = [], [], {}, []
-        self.meta = {"cms": [], "hll": [], "mon": []}
+        self.cms_cases, self.hll_cases, self.shape_cases, self.mon_cases, self.hh_cases = [], [], {}, [], []
+        self.meta = {"cms": [], "hll": [], "mon": [], "hh": []}
+        self.bmh = probe_buckets_hh(env, cfg, universe)
         self.n_sched = 0
         self.todo = []
         self.sampled = set()
@@ -564,6 +607,9 @@ class Suite:
         if "hll" in combo:
             self.hll_cases.append("(" + coq_hll_case(self.cfg, items, sched, res["final"]["hll"]) + " : hll_case)")
             self.meta["hll"].append(rep)
+        if "hh" in combo:
+            self.hh_cases.append(coq_hh_case(self.cfg, self.bmh, items, sched, res["workers"]["hh"], res["final"]["hh"]))
+            self.meta["hh"].append(rep)
 
     def add(self, items, scheds, combo, suite):
         self.todo += [("sched", suite, items, tuple(combo), s) for s in scheds]
@@ -655,8 +701,9 @@ class Suite:
         for (n, _, rounds, per_round), tree in self.shape_cases.items():
             shape_cases.append(f"({n}, {coq_tree(tree)}, {rounds}, [" + "; ".join(str(x) for x in per_round) + "])")
         for tag, chk, cases, shard in (("shape", "check_shape", shape_cases, 50), ("cms", "check_cms_case", self.cms_cases, 130),
-                                       ("hll", "check_hll_case", self.hll_cases, 60), ("mon", "check_mon_case", self.mon_cases, 60)):
-            bad, err = ctx.coq_bad_cases(tag, IMPORTS, chk, cases, shard=shard)
+                                       ("hll", "check_hll_case", self.hll_cases, 60), ("mon", "check_mon_case", self.mon_cases, 60),
+                                       ("hh", "check_hh_pa_case", self.hh_cases, 60)):
+            bad, err = ctx.coq_bad_cases(tag, IMPORTS_HH if tag == "hh" else IMPORTS, chk, cases, shard=shard)
             if err:
                 ctx.broken.append(f"correspondence merge-tree ({tag}) could not be evaluated: {err}")
             if bad:
@@ -678,14 +725,16 @@ class Suite:
               f"{coq_outs(items, 'cms')}, {coq_sched(s)}, {coq_expect_cms(f)}) : real_cms_case)"
               for items, s, f in real_cases["cms"]]
         hc = ["(" + coq_hll_case(cfg, items, s, f) + " : hll_case)" for items, s, f in real_cases["hll"]]
-        for tag, chk, cases in (("realcms", "check_real_cms_case", cc), ("realhll", "check_hll_case", hc)):
-            bad, err = ctx.coq_bad_cases(tag, IMPORTS, chk, cases, shard=10)
+        hhc = [coq_real_hh_case(cfg, self.bmh, items, s, f) for items, s, f in real_cases.get("hh", [])]
+        for tag, chk, cases in (("realcms", "check_real_cms_case", cc), ("realhll", "check_hll_case", hc),
+                                ("realhh", "check_real_hh_case", hhc)):
+            bad, err = ctx.coq_bad_cases(tag, IMPORTS_HH if tag == "realhh" else IMPORTS, chk, cases, shard=10)
             if err:
                 ctx.broken.append(f"correspondence merge-tree ({tag}) could not be evaluated: {err}")
             if bad:
                 ctx.broken.append(f"correspondence merge-tree ({tag}): the model evaluated on the schedule observed in the real "
                                   f"spawned run differs from the returned sketch ({len(bad)} of {len(cases)})")
-        ctx.cov["model_cases_real_runs"] = len(cc) + len(hc)
+        ctx.cov["model_cases_real_runs"] = len(cc) + len(hc) + len(hhc)
 
 
 def replay(ctx, path):
